@@ -28,12 +28,12 @@ type T struct {
 	C    []*T     `json:"c,omitempty"`
 }
 
-func tNull() *T            { return &T{K: 'n'} }
-func tBool(b bool) *T      { return &T{K: 'b', B: b} }
-func tInt(i int64) *T      { return &T{K: 'i', I: i} }
-func tFloat(f float64) *T  { return &T{K: 'f', F: f, FS: strconv.FormatFloat(f, 'g', -1, 64)} }
-func tStr(s string) *T     { return &T{K: 's', S: []byte(s)} }
-func tList(c ...*T) *T     { return &T{K: 'l', C: c} }
+func tNull() *T           { return &T{K: 'n'} }
+func tBool(b bool) *T     { return &T{K: 'b', B: b} }
+func tInt(i int64) *T     { return &T{K: 'i', I: i} }
+func tFloat(f float64) *T { return &T{K: 'f', F: f, FS: strconv.FormatFloat(f, 'g', -1, 64)} }
+func tStr(s string) *T    { return &T{K: 's', S: []byte(s)} }
+func tList(c ...*T) *T    { return &T{K: 'l', C: c} }
 func tMap(kind byte, keys []string, c []*T) *T {
 	return &T{K: kind, Keys: keys, C: c}
 }
